@@ -78,6 +78,11 @@ Proof.
     destruct (FW eq_refl) as (N1 & N2 & N3).
     assert (CW : c <> Wake) by (intros ->; assert (false = true) by (apply (Hcw Wake); auto); discriminate).
     repeat split; inv_solve.
+  - (* Skip *)
+    destruct (a x) eqn:A; try discriminate. destruct (flag x) eqn:F; [discriminate|].
+    injection E as <-. unfold Inv; cbn [a s flag backlog served dropped listening].
+    destruct (FW eq_refl) as (N1 & N2 & N3).
+    repeat split; inv_solve.
   - (* Dispatch *)
     destruct (a x) eqn:A; try discriminate. injection E as <-. unfold Inv; cbn [a s flag backlog served dropped listening].
     assert (J : s x = SJoin -> backlog x <> []) by (intro K; apply Hjoin; [assumption|right; eauto]).
@@ -118,6 +123,7 @@ Proof.
   intros He E. unfold measure. destruct l; try discriminate; cbn [step] in E.
   - destruct (a x) eqn:A; try discriminate. destruct (backlog x) eqn:B; [discriminate|]. injection E as <-. cbn. lia.
   - destruct (a x) eqn:A; try discriminate. destruct (flag x); [|discriminate]. injection E as <-. cbn. lia.
+  - destruct (a x) eqn:A; try discriminate. destruct (flag x); [discriminate|]. injection E as <-. cbn. lia.
   - destruct (a x) eqn:A; try discriminate. destruct (flag x); [discriminate|]. injection E as <-. cbn. lia.
   - destruct (a x) eqn:A; try discriminate. injection E as <-. cbn. lia.
   - destruct (a x) eqn:A; try discriminate. injection E as <-. cbn. lia.
